@@ -100,6 +100,7 @@ func StorageDump(n *Node, w *world) []string {
 
 // Observe takes the observation of node n for its current height h (= the block just added).
 func Observe(n *Node, w *world) (*Observation, error) {
+	n.Enter()
 	bc := n.BC
 	h := bc.BlockHeight()
 	o := &Observation{Height: h, Sections: map[string]string{}, Detail: map[string]string{}}
